@@ -51,7 +51,13 @@ def run(ctx: Ctx):
             elif a.startswith("IN["):
                 ctx.fail("R07.a", f.key(f"membership::{a}"), f"stiffness is decided by `{a[3:-1]}`, not by membership of the *state's* name in the stiff set", f.where(m.loop))
     ctx.check(len(stiff_sets) == 1, "R07.a", f.key("stiff-predicate"), f"stiffness test is X.state.name in {sorted(stiff_sets)}", f"expected exactly one stiffness predicate `X.state.name in <set>`, found {sorted(stiff_sets)}", f.where(m.loop))
-    if len(stiff_sets) == 1:
+    if len(stiff_sets) == 1 and getattr(m, "from_av", False):
+        # read from the builder's value: the test is `X.state.name in <S>`; S must be the stiff_states argument
+        # (through set(...) or not) and None must mean "no stiff state"
+        sname = stiff_sets.pop()
+        ctx.check(sname == "stiff_states", "R07.a", f.key("stiff-set-source"), "the stiff set is the stiff_states argument", f"stiffness is membership of the state's name in `{sname}`, not in the stiff_states argument", f.where())
+        ctx.check(bool(m.stiff_none_ok), "R07.a", f.key("none-means-empty"), "stiff_states=None means no stiff state", "stiff_states=None is not mapped to the empty collection before membership is tested", f.where())
+    elif len(stiff_sets) == 1:
         sname = stiff_sets.pop()
         src = m.pre.get(sname)
         ok = src is not None and "stiff_states" in {n.id for n in ast.walk(src) if isinstance(n, ast.Name)} and isinstance(src, (ast.Call, ast.BoolOp))
